@@ -229,11 +229,13 @@ def tupleTypes (types : List Ty) (hasDynamic : Bool) : Res UOut :=
         | none => tupleTypesToList E uns types
         | some cs => .ok (some (retTy, cs))
 
-/-- the indices `i` with `p types[i]` (`tupleIdxs` / `objIdxs`) -/
-def idxsOf (p : Ty → Bool) (types : List Ty) : List Nat :=
-  (List.range types.length).filter fun i => match types[i]? with
-    | some t => p t
-    | none => false
+/-- the indices `i ≥ k` (counted from `k` at the head) whose type satisfies `p` -/
+def idxsFrom (p : Ty → Bool) : Nat → List Ty → List Nat
+  | _, [] => []
+  | k, t :: ts => if p t then k :: idxsFrom p (k + 1) ts else idxsFrom p (k + 1) ts
+
+/-- the indices `i` with `p types[i]` (`tupleIdxs` / `objIdxs`), ascending -/
+def idxsOf (p : Ty → Bool) (types : List Ty) : List Nat := idxsFrom p 0 types
 
 /-- `listed[idx] = ty` for every idx of `idxs` -/
 def replaceAt (idxs : List Nat) (ty : Ty) (types : List Ty) : List Ty :=
@@ -257,37 +259,41 @@ def wrapLoop (firstConvs : Convs) : Nat → List Nat → Convs → Res Convs
 
 variable (self : Bool → List Ty → Res UOut)
 
-/-- unifyTuplesAsList; `self` is `unify` itself -/
-def tuplesAsList (types : List Ty) : Res UOut :=
-  let tuples := types.filter isTupleTy
-  let tupleIdxs := idxsOf isTupleTy types
-  (tupleTypesToList E uns tuples).bind fun r =>
+/-- the common shape of unifyTuplesAsList (`isStruct` = IsTupleType, `isColl` =
+IsListType, `structsToColl` = unifyTupleTypesToList) and unifyObjectsAsMaps
+(IsObjectType, IsMapType, unifyObjectTypesToMap); `self` is `unify` itself:
+
+    ty, tupleConvs := unifyTupleTypesToList(tuples, unsafe)
+    if !ty.IsListType() { return cty.NilType, nil }
+    listed := copy of types with listed[idx] = ty for every tuple index
+    newTy, convs := unify(listed, unsafe)
+    if !newTy.IsListType() { return cty.NilType, nil }
+    <wrapping loop>
+    return newTy, convs -/
+def reunify (isStruct isColl : Ty → Bool) (structsToColl : List Ty → Res UOut) (types : List Ty) : Res UOut :=
+  let structs := types.filter isStruct
+  let idxs := idxsOf isStruct types
+  (structsToColl structs).bind fun r =>
   match r with
-  | some (.list ety, tupleConvs) =>
-    let ty := Ty.list ety
-    let listed := replaceAt tupleIdxs ty types
-    (self uns listed).bind fun r2 =>
-    match r2 with
-    | some (.list e2, convs) =>
-      (wrapLoop tupleConvs 0 tupleIdxs convs).bind fun convs' => .ok (some (.list e2, convs'))
-    | _ => .ok none
-  | _ => .ok none
+  | none => .ok none
+  | some (ty, firstConvs) =>
+    if !isColl ty then .ok none
+    else
+      let replaced := replaceAt idxs ty types
+      (self uns replaced).bind fun r2 =>
+      match r2 with
+      | none => .ok none
+      | some (newTy, convs) =>
+        if !isColl newTy then .ok none
+        else (wrapLoop firstConvs 0 idxs convs).bind fun convs' => .ok (some (newTy, convs'))
+
+/-- unifyTuplesAsList -/
+def tuplesAsList (types : List Ty) : Res UOut :=
+  reunify uns self isTupleTy isListTy (tupleTypesToList E uns) types
 
 /-- unifyObjectsAsMaps -/
 def objectsAsMaps (types : List Ty) : Res UOut :=
-  let objs := types.filter isObjectTy
-  let objIdxs := idxsOf isObjectTy types
-  (objectTypesToMap E uns objs).bind fun r =>
-  match r with
-  | some (.map ety, objConvs) =>
-    let ty := Ty.map ety
-    let mapped := replaceAt objIdxs ty types
-    (self uns mapped).bind fun r2 =>
-    match r2 with
-    | some (.map e2, convs) =>
-      (wrapLoop objConvs 0 objIdxs convs).bind fun convs' => .ok (some (.map e2, convs'))
-    | _ => .ok none
-  | _ => .ok none
+  reunify uns self isObjectTy isMapTy (objectTypesToMap E uns) types
 
 /-- the inner loop of the general path for one candidate `wantType = types[wantTypeIdx]`,
 writing into the `conversions` buffer that is REUSED across candidates; the Bool says
@@ -328,14 +334,14 @@ def unifyStep (types : List Ty) : Res UOut :=
     else if mapCt > 0 && mapCt + objectCt + dynamicCt == n then
       (objectsAsMaps E uns self types).bind fun r =>
       match r with
-      | some (.map e, convs) => .ok (some (.map e, convs))
-      | _ => general E uns types
+      | some (ty, convs) => if isMapTy ty then .ok (some (ty, convs)) else general E uns types
+      | none => general E uns types
     else if listCt > 0 && listCt + dynamicCt == n then collectionTypes E uns .list types (dynamicCt > 0)
     else if listCt > 0 && listCt + tupleCt + dynamicCt == n then
       (tuplesAsList E uns self types).bind fun r =>
       match r with
-      | some (.list e, convs) => .ok (some (.list e, convs))
-      | _ => general E uns types
+      | some (ty, convs) => if isListTy ty then .ok (some (ty, convs)) else general E uns types
+      | none => general E uns types
     else if setCt > 0 && setCt + dynamicCt == n then collectionTypes E uns .set types (dynamicCt > 0)
     else if objectCt > 0 && objectCt + dynamicCt == n then objectTypes E uns types (dynamicCt > 0)
     else if tupleCt > 0 && tupleCt + dynamicCt == n then tupleTypes E uns types (dynamicCt > 0)
